@@ -92,6 +92,20 @@ func main() {
 				})
 			}
 		}
+		// every sixth session: the application watches TestRequests with two incoming observers registered before
+		// Session.Run and takes them out again, in registration order, once the session is logged on
+		var trObs [2]int64
+		watch := i%6 == 3
+		if watch {
+			prev := scfg.BeforeRun
+			scfg.BeforeRun = func(h *simplefixgo.DefaultHandler, s *session.Session) {
+				if prev != nil {
+					prev(h, s)
+				}
+				trObs[0] = h.HandleIncoming("1", func([]byte) bool { return true })
+				trObs[1] = h.HandleIncoming("1", func([]byte) bool { return true })
+			}
+		}
 		rg, err := rig.NewStepRig(scfg)
 		if err != nil {
 			c.Inconclusive("rig: " + err.Error())
@@ -99,9 +113,16 @@ func main() {
 		}
 		defer rg.Close()
 		p := rig.NewPeer()
+		if watch {
+			defer c.Count("sessions_with_testrequest_observers_removed_in_order", 1)
+		}
 		if res := rg.Inbound(p.Logon(30, "0")); !res.Logged {
 			c.Inconclusive("could not log on")
 			return
+		}
+		if watch {
+			_ = rg.H.RemoveIncomingHandler("1", trObs[0])
+			_ = rg.H.RemoveIncomingHandler("1", trObs[1])
 		}
 		steps := 1 + r.Intn(6)
 		var ctx []string
